@@ -31,6 +31,12 @@ impl Lat {
             1 => for j in 0..=4 * self.n { for i in 0..=4 * self.n { v.push((i as f32 / 4.0, j as f32 / 4.0)); } },
             // half-pixel lattice translated by +57 (non-small magnitudes)
             2 => for j in 0..=2 * self.n { for i in 0..=2 * self.n { v.push((57.0 + i as f32 / 2.0, 57.0 + j as f32 / 2.0)); } },
+            // half-pixel lattice with every coordinate also nudged by -1 / +1 ulp (rounding-boundary inputs)
+            3 => for j in 0..=2 * self.n { for i in 0..=2 * self.n { for dy in -2i32..=1 { for dx in -2i32..=1 {
+                let nud = |c: f32, d: i32| if c == 0.0 || d == 0 { c } else { f32::from_bits((c.to_bits() as i32 + d) as u32) };
+                let p = (nud(i as f32 / 2.0, dx), nud(j as f32 / 2.0, dy));
+                if !v.contains(&p) { v.push(p); }
+            } } } },
             _ => unreachable!(),
         }
         v
@@ -170,6 +176,7 @@ fn families(quick: bool) -> Vec<(String, Vec<(f32, f32)>, usize, bool)> {
     f.push((format!("half-px N={n}"), Lat { kind: 0, n }.points(), 0, false));
     for o in 1..5 { f.push((format!("half-px N={} offset {}", if quick { 3 } else { 5 }, OFFS[o]), Lat { kind: 0, n: if quick { 3 } else { 5 } }.points(), o, false)); }
     f.push((format!("half-px N=3 +57"), Lat { kind: 2, n: 3 }.points(), 0, false));
+    f.push((format!("half-px N={} nudged by -2..+1 ulp", if quick { 1 } else { 2 }), Lat { kind: 3, n: if quick { 1 } else { 2 } }.points(), 0, false));
     if !quick {
         f.push(("quarter-px N=3".into(), Lat { kind: 1, n: 3 }.points(), 0, false));
         for o in [7usize, 38, 69, 113, 24] { f.push((format!("half-px N=4 per-vertex offsets #{o}"), Lat { kind: 0, n: 4 }.points(), o, true)); }
